@@ -24,6 +24,16 @@
 (*  "nest"    parser::array / parser::dictionary with the thread-local       *)
 (*            NestingGuard and MAX_NESTING (MaxB in the model; lopdf: 48,    *)
 (*            added by fix: 79ece31) on every object over [ ] x.             *)
+(*  "lendepth" the same indirect-Length resolution judged for DEPTH: "len"   *)
+(*            proves that `already_seen` stops cycles and bounds the        *)
+(*            recursion by the number of objects N - a bound that grows     *)
+(*            with the file, which is why it never objected to a chain      *)
+(*            1 -> 2 -> ... -> N of streams whose Length is the next one    *)
+(*            (stack overflow at N = 3000).  Here the variant is a          *)
+(*            constant (MaxB + 1 nested objects whatever N is); GuardOn =   *)
+(*            TRUE is the design with a depth limit (an object nested       *)
+(*            deeper is not resolved: error for that Length only),          *)
+(*            GuardOn = FALSE the code as it is - TLC refutes it.           *)
 (*  "window"  Reader::get_xref_start: search_substring recurses once per     *)
 (*            occurrence of the marker, so its depth is bounded only        *)
 (*            because the caller hands it the last Win bytes (512) of the   *)
@@ -119,7 +129,9 @@ LenStep ==
           ELSE IF k = -1 THEN st' = [st EXCEPT !.stk = pop, !.ret = "stream",
                                                !.resolved = IF Len(st.stk) = 1 THEN TRUE ELSE @]
           ELSE \* Length k 0 R: get_object(k, already_seen)
-               IF GuardOn /\ k \in st.seen THEN st' = [st EXCEPT !.stk = pop, !.ret = "stream", !.calls = @ + 1]      \* Err(ReferenceCycle)
+               IF Model = "lendepth" /\ GuardOn /\ Len(st.stk) > MaxB
+               THEN st' = [st EXCEPT !.stk = pop, !.ret = "stream", !.calls = @ + 1]                               \* Err(ReferenceLimit)
+               ELSE IF (GuardOn \/ Model = "lendepth") /\ k \in st.seen THEN st' = [st EXCEPT !.stk = pop, !.ret = "stream", !.calls = @ + 1]      \* Err(ReferenceCycle)
                ELSE IF k = 0 THEN st' = [st EXCEPT !.stk = pop, !.ret = "stream", !.calls = @ + 1, !.seen = @ \cup {0}] \* Err(MissingXrefEntry)
                ELSE st' = [st EXCEPT !.stk = Append(@, k), !.calls = @ + 1, !.seen = @ \cup {k},
                                      !.maxd = IF Len(st.stk) + 1 > @ THEN Len(st.stk) + 1 ELSE @]
@@ -129,6 +141,8 @@ LenKnown(f, o) == f[o] = -1 \/ (f[o] >= 1 /\ f[f[o]] = -2)
 LenVariant == st.maxd <= N + 1 /\ st.calls <= N + 1 /\ Len(st.stk) <= N + 1
 LenRefines == (st.pc = "done" /\ st.f[st.o0] # -2) => (st.resolved = LenKnown(st.f, st.o0))
 LenDone == st.pc = "done"
+\* depth judged against a constant: however many objects the file has, at most MaxB + 1 are being parsed at once
+LenDepthVariant == st.maxd <= MaxB + 1 /\ Len(st.stk) <= MaxB + 1
 
 -----------------------------------------------------------------------------
 (* "bracket": literal_string = "(" inner(MAX_BRACKET) ")";                   *)
@@ -280,12 +294,12 @@ WinRefines == st.pc = "done" => (SsResult = LastOcc(st.b, st.p, st.s0)
                                 /\ (LastOcc(st.b, st.p, WinStart(st.b)) # -1 => SsResult = LastOcc(st.b, st.p, 0)))
 
 -----------------------------------------------------------------------------
-Init == IF Model = "prev" THEN PrevInit ELSE IF Model = "len" THEN LenInit
+Init == IF Model = "prev" THEN PrevInit ELSE IF Model \in {"len", "lendepth"} THEN LenInit
         ELSE IF Model = "bracket" THEN BrInit ELSE IF Model = "nest" THEN NsInit ELSE IF Model = "window" THEN WinInit ELSE SsInit
 
 StepPrevFirst == Model = "prev" /\ PrevFirst
 StepPrevIter  == Model = "prev" /\ PrevIter
-StepLen       == Model = "len" /\ LenStep
+StepLen       == Model \in {"len", "lendepth"} /\ LenStep
 StepBracket   == Model = "bracket" /\ BrStep
 StepNest      == Model = "nest" /\ NsStep
 StepSearch    == Model \in {"search", "window"} /\ SsStep
@@ -294,11 +308,11 @@ Next == StepPrevFirst \/ StepPrevIter \/ StepLen \/ StepBracket \/ StepNest \/ S
 
 Spec == Init /\ [][Next]_st /\ WF_st(Next)
 
-Variant == IF Model = "prev" THEN PrevVariant ELSE IF Model = "len" THEN LenVariant
+Variant == IF Model = "prev" THEN PrevVariant ELSE IF Model = "len" THEN LenVariant ELSE IF Model = "lendepth" THEN LenDepthVariant
            ELSE IF Model = "bracket" THEN BrVariant ELSE IF Model = "nest" THEN NsVariant ELSE IF Model = "window" THEN WinVariant ELSE SsVariant
-Refines == IF Model = "prev" THEN PrevRefines ELSE IF Model = "len" THEN LenRefines
+Refines == IF Model = "prev" THEN PrevRefines ELSE IF Model \in {"len", "lendepth"} THEN LenRefines
            ELSE IF Model = "bracket" THEN BrRefines ELSE IF Model = "nest" THEN NsRefines ELSE IF Model = "window" THEN WinRefines ELSE SsRefines
-Done == IF Model = "prev" THEN PrevDone ELSE IF Model = "len" THEN LenDone
+Done == IF Model = "prev" THEN PrevDone ELSE IF Model \in {"len", "lendepth"} THEN LenDone
         ELSE IF Model = "bracket" THEN BrDone ELSE IF Model = "nest" THEN NsDone ELSE SsDone
 
 Terminates == <>Done
